@@ -4,9 +4,10 @@
 From Coq Require Import QArith List.
 From Coq Require Extraction.
 From Coq Require Import ExtrOcamlBasic.
-From Scenic Require Import C17.Vec C17.Visibility C17.Grid.
+From Scenic Require Import C17.Vec C17.Visibility C17.Grid C17.Angles.
 Extraction Language OCaml.
 Extraction "model.ml" point_visible point_margin point_az point_alt view_windows crosses rays_visible
   req_occluders op_occluders default_visibility_reqs
   augment sph edge_cross object_angles windows_of_angles object_windows object_rays density_counts can_see_2d sector_margin view_angle_to_point
+  truncate_angles
   Qle_bool Qplus Qmult Qminus Qdiv Qred.
